@@ -99,6 +99,14 @@ def _apks(ax, ar, dx):
                 zi.compress_type = comp
                 z.writestr(zi, data)
         out[name] = bio.getvalue()
+    # an APK with an APK Signing Block (v2 + v3 + v3.1 + unknown id), spliced in by the independent writer gen/apkgen
+    from gen import apkgen as K
+    cert = K.cert_der("rsa")
+    s2 = {"digests": [(0x0103, b"\x11" * 32), (0x0104, b"\x22" * 64)], "certs": [cert], "attrs": b"", "sigs": [(0x0103, b"\x33" * 32)], "pubkey": K.pubkey_der("rsa")}
+    s3 = dict(s2, min=24, max=0x7fffffff, smin=24, smax=0x7fffffff)
+    small = K.make_zip([("AndroidManifest.xml", ax["axml:tiny"], "stored"), ("classes.dex", dx["dex:empty"], "stored")])
+    out["apk:signing-block"] = K.insert_signing_block(small, [(K.ID_V2, K.v2_value([s2])), (K.ID_V3, K.v3_value([s3])),
+                                                              (K.ID_V31, K.v3_value([s3])), (K.ID_UNKNOWN, b"\x00" * 8)])
     return out
 
 
@@ -154,6 +162,12 @@ def parse_apk(buf):
     a = APK(buf, raw=True)
     a.get_files()
     a.get_package()
+    # signing-block readers (errors are fine, only non-termination is judged)
+    for q in (a.is_signed_v2, a.is_signed_v3, a.get_certificates_der_v2, a.get_certificates_der_v3, a.get_signature_names):
+        try:
+            q()
+        except Exception:     # noqa
+            pass
     return True
 
 
